@@ -9,6 +9,14 @@ kind == "fuzz": native go fuzzing (thorough only): fuzz (target), fuzztime.
 Q, T = "quick", "thorough"
 
 PROPS = {
+    "C08": {"engines": [
+        {"name": "config", "pkg": "internal/config", "run": "^TestVerifC08Config$",
+         "checks": {Q: 80000, T: 4800000}, "shards": {Q: 2, T: 16}},
+    ]},
+    "C18": {"engines": [
+        {"name": "toconfig", "pkg": "internal/k8s/controllers", "run": "^TestVerifC18ToConfig$",
+         "checks": {Q: 6000, T: 480000}, "shards": {Q: 2, T: 16}},
+    ]},
     "C16": {"engines": [
         {"name": "update", "pkg": "internal/bgp/native", "run": "^TestVerifC16Update$",
          "checks": {Q: 40000, T: 3200000}, "shards": {Q: 2, T: 16}},
